@@ -10,6 +10,8 @@ pub mod stubs;
 pub mod kinds;
 
 pub mod h_basic;
+pub mod h_ctrl;
+pub mod h_err;
 pub mod h_greedy;
 pub mod h_hide;
 pub mod h_leaf;
@@ -26,6 +28,8 @@ mod proofs;
 pub fn all_harnesses() -> Vec<(&'static str, fn())> {
     let mut v: Vec<(&'static str, fn())> = Vec::new();
     v.extend_from_slice(h_basic::HARNESSES);
+    v.extend_from_slice(h_ctrl::HARNESSES);
+    v.extend_from_slice(h_err::HARNESSES);
     v.extend_from_slice(h_greedy::HARNESSES);
     v.extend_from_slice(h_hide::HARNESSES);
     v.extend_from_slice(h_leaf::HARNESSES);
